@@ -156,13 +156,16 @@ def main(ctx, args):
             stats["layouts_agree"] += 1
             nt = pi.get("cells", 0) >= 2
             incls = pi.get("cls", 0) == 1 and pi.get("sites", 0) == 1
+            inwide = pi.get("clsz", 0) == 1 and pi.get("sites", 0) == 1
+            stats["layout_in_wide_class"] += inwide
+            stats["layout_nontrivial_in_wide_class"] += (nt and inwide)
             stats["layout_ge2_cells"] += nt
             stats["layout_nested"] += pi.get("depth", 0) >= 1
             stats["layout_nested2"] += pi.get("depth", 0) >= 2
             stats["layout_with_delay"] += pi.get("delays", 0) >= 1
             stats["layout_with_pruned_stateless_child"] += pi.get("zero", 0) >= 1
             stats["layout_in_theorem_class"] += incls
-            stats["layout_outside_class_state_in_arms"] += pi.get("cls", 0) == 0
+            stats["layout_outside_class_state_in_arms"] += pi.get("clsz", 0) == 0
             stats["layout_nontrivial_in_class"] += (nt and incls)
             if nt:
                 layout_nontriv.add(hash(c["src"]))
@@ -221,11 +224,11 @@ def main(ctx, args):
         ctx.violation(f"run-time state accesses do not match the published layout ({why[:300]}) on {len(failures)} programs; smallest:\n{rep['src']}", rep)
     if layout_diffs:
         # a disagreement between the Lean model of mirgen and the real mirgen: classify by the class predicates of the
-        # listed findings (F3: a cell published for an `if` arm, cls=0; F2/G2 concern accesses/words, not the layout),
+        # listed findings (F3: a cell with state published for an `if` arm, clsz=0; F2/G2 concern accesses/words, not the layout),
         # everything else is reported as it is
         layout_diffs.sort(key=lambda f: len(f[0]["src"]))
-        in_f3 = [d for d in layout_diffs if d[3].get("cls", 1) == 0]
-        other = [d for d in layout_diffs if d[3].get("cls", 1) != 0]
+        in_f3 = [d for d in layout_diffs if d[3].get("clsz", 1) == 0]
+        other = [d for d in layout_diffs if d[3].get("clsz", 1) != 0]
         stats["layout_diffs_in_class_F3"] = len(in_f3)
         stats["layout_diffs_other"] = len(other)
         for group, label in ((other, "outside every listed class"), (in_f3, "state inside `if` arms (class of F3)")):
@@ -263,8 +266,10 @@ def main(ctx, args):
             "with_ge2_cells": stats["layout_ge2_cells"], "with_nested_children": stats["layout_nested"],
             "with_children_nested_twice": stats["layout_nested2"], "with_delay": stats["layout_with_delay"],
             "with_pruned_stateless_callee": stats["layout_with_pruned_stateless_child"],
-            "in_class_of_the_theorems(noStateInArms,SitesUnique)": stats["layout_in_theorem_class"],
-            "nontrivial_and_in_class": stats["layout_nontrivial_in_class"],
+            "in_class_of_the_theorems(noStatefulInArms,SitesUnique)": stats["layout_in_wide_class"],
+            "nontrivial_and_in_class": stats["layout_nontrivial_in_wide_class"],
+            "in_narrow_class(noStateInArms: no named call at all in an arm)": stats["layout_in_theorem_class"],
+            "nontrivial_and_in_narrow_class": stats["layout_nontrivial_in_class"],
             "no_model_layout": {k[len("nomodel_"):]: v for k, v in stats.items() if k.startswith("nomodel_")},
             "samples": layout_samples,
         },
